@@ -494,6 +494,17 @@ def no_instance_params(cls):
     return cls
 
 
+def _clear_params_cache(cls):
+    """
+    Clear the cached `.param` dictionaries of a class and of all its
+    subclasses, which may hold Parameters inherited from (or through) it.
+    """
+    for class_ in descendents(cls):
+        private = class_.__dict__.get('_param__private')
+        if private is not None:
+            private.params.clear()
+
+
 def _instantiate_param_obj(paramobj, owner=None):
     """Return a Parameter object suitable for instantiation given the class's Parameter object."""
     # Shallow-copy Parameter object without the watchers
@@ -2462,7 +2473,7 @@ class Parameters:
         type.__setattr__(cls, param_name, param_obj)
         ParameterizedMetaclass._initialize_parameter(cls, param_name, param_obj)
         # delete cached params()
-        cls._param__private.params.clear()
+        _clear_params_cache(cls)
 
     # PARAM3_DEPRECATION
     @_deprecated(extra_msg="Use instead `.param.add_parameter`", warning_cat=_ParamFutureWarning)
@@ -3307,8 +3318,13 @@ class Parameters:
             if isinstance(cls_or_slf, Parameterized) and name in cls_or_slf._param__private.values:
                 # dealing with object and it's been set on this object
                 value = cls_or_slf._param__private.values[name]
+            elif isinstance(cls_or_slf, Parameterized):
+                # isn't set on the object: attribute access falls back to the
+                # class's Parameter (a per-instance copy of the Parameter may
+                # hold a default that the class has since replaced)
+                value = type(cls_or_slf).get_param_descriptor(name)[0].default
             else:
-                # dealing with class or isn't set on the object
+                # dealing with class
                 value = param_obj.default
 
         return value
@@ -4480,12 +4496,15 @@ class ParameterizedMetaclass(type):
                 parameter = copy.copy(parameter)
                 parameter.owner = mcs
                 type.__setattr__(mcs,attribute_name,parameter)
+                # This class (and its subclasses) now has its own Parameter
+                _clear_params_cache(mcs)
                 try:
                     parameter.__set__(None,value)
                 except Exception:
                     # A rejected value must not leave the copy behind: the
                     # class would stop following its superclass's Parameter
                     type.__delattr__(mcs,attribute_name)
+                    _clear_params_cache(mcs)
                     raise
             else:
                 mcs.__dict__[attribute_name].__set__(None,value)
